@@ -494,7 +494,8 @@ def agree_ref(ctx, fi, ref_src, title, what=('return', 'heap', 'substores'), rul
             fresh_call = ra is not None and ra.kind == 'call' and ra.args[0] in (
                 'binBitAnd', 'binBitOr', 'binBitXor', 'binRShift', 'binLShift', 'floordiv', 'mod', 'astype', 'copy', 'abs',
                 'round', 'floor', 'ceil', 'trunc', 'min', 'max', 'where', 'real', 'imag')
-            if not isinstance(bn, ast.Name) or (ra is not None and not fresh_call):
+            fresh_list = ra is not None and ra.kind in ('replicate', 'list')      # a list literal / [v] * n built here
+            if not isinstance(bn, ast.Name) or (ra is not None and not fresh_call and not fresh_list):
                 return False
             defs = [d for d in II.events if d.kind == 'store' and d.data.get('target') == 'name' and d.data.get('name') == bn.id
                     and d.seq < e.seq]
